@@ -79,6 +79,12 @@ def run(chk):
                 continue
             for m in (1, 4, 16):
                 cells.append(dict(name=name, a=a, b=b, l=l, m=m, trials=trials))
+    # the same shapes with the crate's identity hasher and neighbouring small integers as labels
+    extra = []
+    for c in cells:
+        if c["m"] == 4 and c["l"] <= 2:
+            extra.append(dict(c, hasher="nohash", elems="small", name=c["name"] + "+nohash-small"))
+    cells += extra
     chk.cov["cells"] = len(cells)
     # oracle: harness enumeration, cross-checked against TLC's evaluation of the TLA+ definition on small cells
     cin = os.path.join(chk.wd, "cells.json")
@@ -112,6 +118,47 @@ def run(chk):
         seen.add(key)
         cases.append(dict(m=c["m"], l=c["l"], seqs=[c["a"], c["b"], c["a"]]))
     ordfam.record_and_validate(chk, cases, "cells-L2")
+    # long runs of repeated elements (multiplicities beyond 255): l = 1, closed form of the same definition:
+    # P = (1/|U|) * sum over u in U of [1 if u in both; count_B(elem u)/|P_B| if u only in A; count_A(elem u)/|P_A| if only in B]
+    # (the restriction of a uniform ranking to P_B is uniform and independent of which pair outside P_B is the global minimum);
+    # the closed form is cross-checked against the enumeration on every small l = 1 cell above
+    def closed_l1(a, b):
+        from fractions import Fraction
+        ca, cb = {}, {}
+        for e in a:
+            ca[e] = ca.get(e, 0) + 1
+        for e in b:
+            cb[e] = cb.get(e, 0) + 1
+        tot = Fraction(0)
+        nu = 0
+        for e in set(ca) | set(cb):
+            x, y = ca.get(e, 0), cb.get(e, 0)
+            nu += max(x, y)
+            tot += min(x, y)
+            if x > y:
+                tot += (x - y) * Fraction(y, len(b))
+            elif y > x:
+                tot += (y - x) * Fraction(x, len(a))
+        return tot / nu
+    for c, o in zip(cells, orc):
+        if c["l"] == 1:
+            from fractions import Fraction
+            if closed_l1(c["a"], c["b"]) != Fraction(o["num"], o["den"]):
+                raise ToolError("closed form for l = 1 disagrees with the enumeration on %s" % c)
+    long_cells = []
+    for (xa, ya, xb, yb) in ((300, 20, 20, 300), (512, 256, 256, 512), (260, 1, 1, 3)):
+        a = [1] * xa + [2] * ya
+        b = [1] * xb + [2] * yb
+        for m in (1, 4):
+            long_cells.append(dict(name="long-runs", a=a, b=b, l=1, m=m, trials=trials // 30))
+    if not quick:
+        long_cells.append(dict(name="very-long-runs", a=[1] * 66000 + [2] * 10, b=[1] * 10 + [2] * 66000, l=1, m=2, trials=3000))
+    for c in long_cells:
+        f = closed_l1(c["a"], c["b"])
+        cells.append(c)
+        orc.append(dict(num=f.numerator, den=f.denominator))
+    cin = os.path.join(chk.wd, "cells_all.json")
+    json.dump(dict(cells=cells), open(cin, "w"))
     # L3: frequency validation
     fout = os.path.join(chk.wd, "freq.json")
     harness("om", ["freq", "in=" + cin, "out=" + fout, "seed=%d" % chk.seed], timeout=3000)
@@ -124,7 +171,8 @@ def run(chk):
         chk.add("evaluations", n)
         dev = abs(mean - p)
         worst = max(worst, dev / eps if eps > 0 else 0)
-        rec = dict(cell=c["name"], a=c["a"], b=c["b"], l=c["l"], m=c["m"], oracle=p, mean=mean, radius=eps, trials=n,
+        rec = dict(cell=c["name"], a=c["a"] if len(c["a"]) <= 12 else "%d elements" % len(c["a"]), b=c["b"] if len(c["b"]) <= 12 else "%d elements" % len(c["b"]),
+                   l=c["l"], m=c["m"], oracle=p, mean=mean, radius=eps, trials=n, hasher=c.get("hasher", "fnv"), labels=c.get("elems", "random"),
                    panics=f["panics"])
         if 0.02 < p < 0.98:
             chk.add("distinct_nontrivial", 1)
